@@ -7,9 +7,17 @@ compared with the recursive listing of what exp2cxx wrote:
   * set equality of entity/*.{h,cc} and type/*.{h,cc} (union over the schemas of the file);
   * every fixed per-schema file the scanner names (misc headers, misc impls, unity impls) exists as named, and
     every top-level .cc exp2cxx wrote is named by some CMakeLists;
-  * one CMakeLists per schema of the file (a schema = one Sdai<NAME>.init.cc written by exp2cxx);
+  * one CMakeLists per schema of the file (a schema = one Sdai<NAME>.init.cc written by exp2cxx); the schemas of one file
+    get pairwise distinct directories, PROJECT (library) names and short names, every announced directory holds the
+    CMakeLists of a different schema;
+  * multi-schema files: each schema's entity/type lists equal the files exp2cxx created FOR THAT SCHEMA (the includes it
+    records in Sdai<S>_unity_{entities,types}.{cc,h} while creating the files), so every generated file is listed by
+    exactly the schema(s) it is generated for;
   * directory == PROJECT == short name == prefix of every list variable; SCHEMA_TARGETS schema name == the
     name exp2cxx used in its file names; SCHEMA_TARGETS path == the input path given.
+Workload beyond shipped/unit/random files: vf/c17_multi.py - file-name x schema-name matrix for 1/2/3 schemas (directory and
+library naming) and a single-schema family varying the generation order of select / renamed enumeration (a single schema
+must never be split into numbered passes).
 Keys:  <program pair>|<schema feature>|<symptom> with symptom 'file predicted not written' / 'file written not
 predicted' / ... ; the schema feature is derived from the EXPRESS text of the declaration the file belongs to.
 """
@@ -130,7 +138,8 @@ def judge(g, name, text, fname):
     sdir, gdir = os.path.join(root, 'scan'), os.path.join(root, 'gen')
     for d in (ind, sdir, gdir):
         os.makedirs(d)
-    inp = os.path.join(ind, fname)
+    inp = os.path.join(ind, fname)          # fname may place the file in sub-directories (data/<dir>/x.exp)
+    os.makedirs(os.path.dirname(inp), exist_ok=True)
     with open(inp, 'w') as f:
         f.write(text)
     rs = run.run([g.tools['schema_scanner'], inp], cwd=sdir, env=g.env, timeout=g.timeout)
@@ -168,6 +177,12 @@ def judge(g, name, text, fname):
         L.dir = os.path.dirname(p)
         lists.append(L)
     printed_dirs = [l.strip() for l in rs.out.splitlines() if l.strip()]
+    res['nannounced'] = len(printed_dirs)
+    stem = os.path.basename(fname).rsplit('.', 1)[0].lower()
+    if len(schemas) > 1:
+        res['tags'].add('multi: %d schemas' % len(schemas))
+        res['tags'].add('multi: file name %s' % ('equals a schema name' if stem in schemas else 'is a prefix of a schema name' if any(x.startswith(stem) for x in schemas)
+                                                 else 'extends a schema name' if any(stem.startswith(x) for x in schemas) else 'unrelated to the schema names'))
     if len(printed_dirs) != len(set(printed_dirs)):
         # several schemas of the file were given the same short name: each CMakeLists.txt overwrote the previous one
         F.append(('scanner|multi-schema file whose schemas get the same short name|schemas share one directory, CMakeLists.txt overwritten',
@@ -180,12 +195,28 @@ def judge(g, name, text, fname):
                   'exp2cxx generated schemas %s; scanner wrote %s (announced %d directories)' % (gen_schemas, cm_paths, len(printed_dirs))))
     if sorted(printed_dirs) != sorted(os.path.join(sdir, L.dir) for L in lists):
         F.append(('scanner|%s|announced directories differ from directories written' % multi, 'stdout %s vs %s' % (printed_dirs, cm_paths)))
+    # ---- every schema of the file: a directory, a library (PROJECT) name and a build description of its own
+    for what, vals in (('schema', [(L.schema or '').lower() for L in lists]), ('library (PROJECT) name', [' '.join(L.project) for L in lists]),
+                       ('short name', [L.short for L in lists])):
+        if len(set(vals)) != len(vals):
+            F.append(('scanner|%s|two build descriptions with the same %s' % (multi, what), '%s in %s' % (vals, cm_paths)))
+    if len(schemas) > 1 and len(lists) == len(schemas):
+        # the order in which the scanner visited the schema dictionary (= order of the directories on stdout)
+        by_dir = dict((os.path.join(sdir, L.dir), (L.schema or '').lower()) for L in lists)
+        visit = [by_dir.get(d) for d in printed_dirs]
+        if None not in visit and sorted(visit) == sorted(schemas):
+            res['tags'].add('multi: schemas visited %s' % ('in declaration order' if visit == schemas else 'in reverse declaration order' if visit == schemas[::-1]
+                                                           else 'in another order'))
+            if stem in schemas:
+                res['tags'].add('multi: file named after the schema visited %s' % ('first' if visit[0] == stem else 'last' if visit[-1] == stem else 'in the middle'))
     # a schema that exp2cxx had to generate in several passes is written as Sdai<S>_1.*, Sdai<S>_2.* ... instead of Sdai<S>.*
     split = {}
     for s_ in gen_schemas:
         if 'Sdai%s.cc' % s_ not in written and 'Sdai%s_1.cc' % s_ in written:
             split[s_] = sorted(p for p in written if re.match(r'^Sdai%s_\d+(_unity_(entities|types))?\.(cc|h)$' % re.escape(s_), p))
-            F.append(('scanner vs exp2cxx|multi-schema file, schema generated in several passes|per-schema files predicted not written (numbered files written instead)',
+            # the open finding is about files with several schemas (a schema waits for one that is generated later); a file with ONE schema
+            # that exp2cxx splits into passes is a different matter and gets a key of its own
+            F.append(('scanner vs exp2cxx|%s, schema generated in several passes|per-schema files predicted not written (numbered files written instead)' % multi,
                       'scanner names Sdai%s.h/.cc and the unity files; exp2cxx wrote %s' % (s_, split[s_][:6])))
             res['tags'].add('schema generated in several passes')
     split_written = set(p for v in split.values() for p in v)
@@ -194,6 +225,7 @@ def judge(g, name, text, fname):
     pred = dict(eh=set(), ei=set(), th=set(), ti=set())
     dups = 0
     seen_schema = set()
+    owners = {}
     for L in lists:
         if not (L.schema and L.short):
             F.append(('scanner|%s|CMakeLists without schema / short name' % multi, L.text[:300]))
@@ -229,6 +261,24 @@ def judge(g, name, text, fname):
                 pred[k].add(x)
         if sorted(x[:-2] for x in eh) != sorted(x[:-3] for x in ei) or sorted(x[:-2] for x in th) != sorted(x[:-3] for x in ti):
             F.append(('scanner|%s|header list and implementation list name different stems' % multi, '%s' % L.dir))
+        if len(gen_schemas) > 1 and up in gen_schemas and up not in split:
+            # files exp2cxx created FOR THIS SCHEMA = what it recorded in the schema's unity files while creating them
+            for lst, unity, sub, ext, k in ((ei, 'Sdai%s_unity_entities.cc', 'entity', 'cc', 'entity impl'), (eh, 'Sdai%s_unity_entities.h', 'entity', 'h', 'entity header'),
+                                            (ti, 'Sdai%s_unity_types.cc', 'type', 'cc', 'type impl'), (th, 'Sdai%s_unity_types.h', 'type', 'h', 'type header')):
+                u = unity % up
+                if u not in written:
+                    continue        # reported below as a fixed per-schema file
+                inc = set(re.findall(r'(?m)^#include "(%s/[^"/]+\.%s)"' % (sub, ext), U.read_text(os.path.join(gdir, u))))
+                res['per_schema_lists_compared'] = res.get('per_schema_lists_compared', 0) + 1
+                for x in sorted(set(lst) - inc):
+                    F.append(('scanner vs exp2cxx|multi-schema file, %s|file listed for a schema that exp2cxx does not generate it for (%s)' % (feat(x), k),
+                              '%s/CMakeLists.txt (schema %s) lists %s; exp2cxx generated for that schema: %s' % (L.dir, L.schema, x, sorted(inc)[:12])))
+                for x in sorted(inc - set(lst)):
+                    F.append(('scanner vs exp2cxx|multi-schema file, %s|file generated for a schema missing from that schema\'s list (%s)' % (feat(x), k),
+                              'exp2cxx generated %s for schema %s; %s/CMakeLists.txt lists %s' % (x, L.schema, L.dir, sorted(lst)[:12])))
+                owners.setdefault(k, {})
+                for x in lst:
+                    owners[k].setdefault(x, set()).add(up)
         want_mh = ['Sdaiclasses.h', 'schema.h', 'Sdai%sNames.h' % up, 'Sdai%s.h' % up]
         want_mi = ['SdaiAll.cc', 'compstructs.cc', 'schema.cc', 'Sdai%s.cc' % up, 'Sdai%s.init.cc' % up]
         want_u = ['Sdai%s_unity_entities.cc' % up, 'Sdai%s_unity_types.cc' % up]
@@ -271,6 +321,7 @@ def judge(g, name, text, fname):
         if '/' not in p and p.endswith('.h') and p not in named and '_unity_' not in p:
             F.append(('scanner vs exp2cxx|fixed per-schema header, %s|file written not predicted' % multi, '%s written by exp2cxx, in no header list' % p))
     res['duplicates_in_lists'] = dups
+    res['listed_by_several_schemas'] = sum(1 for k in owners for x in owners[k] if len(owners[k][x]) > 1)
     res['pred_counts'] = {k: len(v) for k, v in pred.items()}
     res['kinds'] = sorted(set(kinds.values()))
     # the types that (rightly) have no file at all are part of the coverage too
@@ -311,6 +362,14 @@ def workload(chk):
         cases.append((s.name, s.text(), s.fname, ('generated',) + tuple(sorted(s.tags))))
     for s in c17_gen.probes():
         cases.append(('probe:' + s.name, s.text(), s.fname, ('probe',) + tuple(sorted(s.tags))))
+    # multi-schema matrix: number of schemas x schema name sets x declaration order x file-name relation x import relation
+    from .. import c17_multi
+    for s in c17_multi.fixed_matrix():
+        cases.append((s.name, s.text(), s.fname, ('matrix',) + tuple(sorted(s.tags - set(['matrix'])))))
+    for s in c17_multi.rename_order_matrix():
+        cases.append((s.name, s.text(), s.fname, ('rename_order',) + tuple(sorted(s.tags - set(['rename_order'])))))
+    for s in c17_multi.random_matrix(chk.seed, 24 if quick else 200):
+        cases.append((s.name, s.text(), s.fname, ('matrix_random',) + tuple(sorted(s.tags - set(['matrix_random'])))))
     cases.sort(key=lambda c: -len(c[1]))
     return cases
 
@@ -340,6 +399,11 @@ def main(chk):
         chk.count('schemas_judged', res['nschemas'])
         chk.count('generated_files_compared', res['nfiles'])
         chk.count('duplicate_entries_in_scanner_lists', res.get('duplicates_in_lists', 0))
+        chk.count('per_schema_lists_compared_with_unity_files', res.get('per_schema_lists_compared', 0))
+        chk.count('files_listed_by_several_schemas', res.get('listed_by_several_schemas', 0))
+        if res['nschemas'] > 1:
+            chk.count('multi_schema_files_judged')
+            chk.count('schema_directories_announced_for_multi_schema_files', res.get('nannounced', 0))
         for t in tags:
             chk.tag('input:' + t)
         for t in res['tags']:
@@ -359,9 +423,17 @@ def main(chk):
                 break
     return chk.finish(
         rule='schema files: 17 shipped + unit schemas under test/unitary_schemas + seeded generated files from vf/c17_gen.py (renamed enumerations/selects, '
-             'aggregates of defined types, defined simple types, colliding identifiers, multi-schema files) + fixed probes; each accepted file = '
+             'aggregates of defined types, defined simple types, colliding identifiers, multi-schema files) + fixed probes + the multi-schema matrix of '
+             'vf/c17_multi.py (1/2/3 schemas x name sets x declaration order x file name equal to / upper case of / prefix of / extension of / unrelated to '
+             'each schema name, also via data/<dir>/ x independent / importing schemas; fixed, plus 24 random multi-schema files per seed with the file name '
+             'relation assigned round-robin) + 144 single-schema files whose select reaches a renamed enumeration/select '
+             '(6 shapes x 24 permutations of the type names = generation orders); each accepted file = '
              '1 scanner run + 1 exp2cxx run, lists vs. recursive listing; distinct_nontrivial = distinct accepted schema files for which the scanner '
              'predicted >= 1 entity or type file',
         assumptions=['a file is "accepted" when both programs exit 0 on it (disagreement on acceptance is counted, it belongs to C04)',
                      'the schema feature in a key is derived from the EXPRESS text by a rough declaration classifier (naming only, never decides a verdict)',
-                     'the non-unity implementation lists are the ones compared with entity/*.cc and type/*.cc; unity file names are checked for existence'])
+                     'the non-unity implementation lists are the ones compared with entity/*.cc and type/*.cc; unity file names are checked for existence',
+                     'for multi-schema files "the files the generator creates for that schema" are the entity/ and type/ files exp2cxx records in that '
+                     'schema\'s Sdai<S>_unity_{entities,types}.{cc,h} at the moment it creates them; each schema\'s lists are compared with them',
+                     'every schema of a file must get a directory, PROJECT (library) name and CMakeLists.txt of its own; HOW the scanner derives the name '
+                     '(file, data/ directory or schema name) is not judged'])
